@@ -226,7 +226,7 @@ Proof. exists [97; 98]%N, (Span 1 0 1). vm_compute. reflexivity. Qed.
 Print Assumptions c12_composed_reversed_refuted.
 
 (* ------------------------------------------------------------------ sites added since the last baseline *)
-(* Model/SitesBaseline.v was re-recorded on /repo d86674e (frozen); every row that grew was read, and the added site is
+(* Model/SitesBaseline.v was re-recorded on /repo 6c9d120 (final); every row that grew was read, and the added site is
    restated with its guard in Model/ReviewedSites.v (text pinned by c12_modelled_text_unchanged). *)
 Theorem c12_reviewed_names_relative : forall (A : Type) (found : ident A -> bool) module_path i,
   resolve_relative found module_path i <> Panic.
